@@ -20,8 +20,9 @@
 import LemoModel.Evm
 import LemoModel.EvmTable
 import LemoProofs.Lemmas.EvmShape
+import LemoProofs.Lemmas.EvmJournal
 namespace LemoProofs.C16
-open LemoModel LemoModel.Evm LemoProofs.EvmShape
+open LemoModel LemoModel.Evm LemoProofs.EvmShape LemoProofs.EvmJournal
 
 /-! ### the regenerated jump table satisfies the premises -/
 
@@ -131,5 +132,367 @@ theorem steps_bounded (T : Table) (hT : T.WF) (o : Nat → Choice) (n i : Nat) (
     · assumption
     · rename_i hne
       exact ih _ _ (by have := step_meas_lt T hT m (o i) hne; omega)
+
+/-! ### gas -/
+
+/-- every frame, together with all the gas held by the frames it (transitively) called, holds at
+    most the gas it was supplied with (`acc` = gas held by the frames above) -/
+def GasInv : Nat → List Frame → Prop
+  | _, [] => True
+  | acc, f :: r => acc + f.gas ≤ f.supplied ∧ GasInv (acc + f.gas) r
+
+theorem gasInv_mono {a b : Nat} {fs : List Frame} (h : a ≤ b) : GasInv b fs → GasInv a fs := by
+  induction fs generalizing a b with
+  | nil => intro _; trivial
+  | cons f r ih => intro ⟨h1, h2⟩; exact ⟨by omega, ih (by omega) h2⟩
+
+theorem gasInv_addGas {acc g : Nat} {rest : List Frame} (h : GasInv (acc + g) rest) : GasInv acc (addGas rest g) := by
+  cases rest with
+  | nil => trivial
+  | cons p r =>
+    obtain ⟨h1, h2⟩ := h
+    exact ⟨by simp only []; omega, gasInv_mono (by simp only []; omega) h2⟩
+
+/-- **gas_bounded (invariant)**: the per-frame gas bound is preserved by every step -/
+theorem gas_inv_step (T : Table) (hT : T.WF) (m : Machine) (c : Choice) (h : GasInv 0 m.frames) :
+    GasInv 0 (step T m c).frames := by
+  cases hm : m.frames with
+  | nil => unfold step; rw [hm]; simp only []; rw [hm]; trivial
+  | cons f rest =>
+    rw [hm] at h
+    obtain ⟨h1, h2⟩ := h
+    cases step_shape T hT m c f rest hm with
+    | pop g res hg hf hr => rw [hf]; exact gasInv_addGas (gasInv_mono (by omega) h2)
+    | cont g hg hf hr => rw [hf]; exact ⟨by simp only []; omega, gasInv_mono (by simp only []; omega) h2⟩
+    | push g cf hg hs hd hf hr =>
+      rw [hf]
+      exact ⟨by omega, by simp only []; omega, gasInv_mono (by simp only []; omega) h2⟩
+
+/-- consequence of the invariant: gas left ≤ gas supplied, at every frame -/
+theorem frame_gas_le_supplied {acc : Nat} {fs : List Frame} (h : GasInv acc fs) : ∀ f ∈ fs, f.gas ≤ f.supplied := by
+  induction fs generalizing acc with
+  | nil => intro f hf; cases hf
+  | cons p r ih =>
+    intro f hf
+    obtain ⟨h1, h2⟩ := h
+    cases hf with
+    | head => omega
+    | tail _ hf' => exact ih h2 f hf'
+
+/-- gas never increases: the gas held by all frames plus the gas already returned to the outside
+    never grows (a caller's gas grows only by what its callee hands back, which the callee loses) -/
+theorem total_step_le (T : Table) (hT : T.WF) (m : Machine) (c : Choice) : (step T m c).total ≤ m.total := by
+  cases hm : m.frames with
+  | nil => unfold step; rw [hm]; exact Nat.le_refl _
+  | cons f rest =>
+    have hs := step_shape T hT m c f rest hm
+    unfold Machine.total
+    rw [hm]
+    cases hs with
+    | pop g res hg hf hr =>
+      rw [hf, hr]
+      have := sumGas_addGas_le rest g
+      cases rest with
+      | nil => simp [sumGas, addGas]; omega
+      | cons p r => simp [sumGas] at *; omega
+    | cont g hg hf hr =>
+      rw [hf]
+      rcases hr with hr | hr <;> rw [hr] <;> simp only [sumGas] <;> omega
+    | push g cf hg hs hd hf hr =>
+      rw [hf, hr]
+      simp only [sumGas]
+      omega
+
+theorem run_total_le (T : Table) (hT : T.WF) (o : Nat → Choice) (i : Nat) (m : Machine) :
+    (run T hT o i m).total ≤ m.total := by
+  induction hn : m.meas using Nat.strongRecOn generalizing i m with
+  | ind n ih =>
+    unfold run
+    split
+    · exact Nat.le_refl _
+    · rename_i h
+      exact Nat.le_trans (ih _ (by rw [← hn]; exact step_meas_lt T hT m (o i) h) _ _ rfl) (total_step_le T hT m (o i))
+
+theorem begin_total_le (T : Table) (k : Kind) (gas : Nat) (value canT : Bool) (callee : Callee) :
+    (begin T k gas value canT callee).total ≤ gas := by
+  unfold begin Machine.total
+  rcases enter_shape T.params Machine.init k gas value canT callee with ⟨x, res, hx, hf, hr⟩ | ⟨cf, hg, _, _, hf, hr⟩
+  · rw [hf, hr]; simp [Machine.init, addGas, sumGas]; exact hx
+  · rw [hf, hr]; simp [Machine.init, sumGas]; omega
+
+theorem begin_gasInv (T : Table) (k : Kind) (gas : Nat) (value canT : Bool) (callee : Callee) :
+    GasInv 0 (begin T k gas value canT callee).frames := by
+  unfold begin
+  rcases enter_shape T.params Machine.init k gas value canT callee with ⟨x, res, hx, hf, hr⟩ | ⟨cf, hg, hs, _, hf, hr⟩
+  · rw [hf]; trivial
+  · rw [hf]; exact ⟨by omega, trivial⟩
+
+/-- **gas_bounded**: whatever the code does, an external call / create started with `gas` returns
+    `leftOverGas ≤ gas`. -/
+theorem gas_bounded (T : Table) (hT : T.WF) (o : Nat → Choice) (k : Kind) (gas : Nat) (value canT : Bool)
+    (callee : Callee) (r : Res) (g : Nat)
+    (h : (run T hT o 0 (begin T k gas value canT callee)).result = some (r, g)) : g ≤ gas := by
+  have h1 := run_total_le T hT o 0 (begin T k gas value canT callee)
+  have h2 := begin_total_le T k gas value canT callee
+  have h3 := run_terminates T hT o 0 (begin T k gas value canT callee)
+  unfold Machine.total at h1 h2
+  rw [h, h3] at h1
+  simp only [sumGas] at h1
+  omega
+
+/-! ### 63/64 rule -/
+
+theorem callGas_le (P : Params) (hcs : 0 < P.createBySuicide) (avail base req t : Nat)
+    (hb : base ≤ avail) (ha : avail < u64) (h : callGas P avail base req = some t) :
+    t ≤ (avail - base) - (avail - base) / 64 := by
+  unfold callGas at h
+  rw [if_pos hcs] at h
+  simp only [GoSem.usub_small hb ha] at h
+  split at h
+  · cases h; exact Nat.le_refl _
+  · rename_i hn
+    cases h
+    omega
+
+/-- **child_gas_63_64**: a callee never gets more than "all but one 64th" of what the caller has left
+    after paying the call's own cost (plus the 2300 stipend when value is transferred);
+    CREATE passes exactly that amount. -/
+theorem child_gas_63_64 (T : Table) (hcs : 0 < T.params.createBySuicide) (ro : Bool) (gas : Nat) (c : Choice)
+    (g child : Nat) (k : Kind) (hgas : gas < u64)
+    (h : pre T ro gas c = .ok (g, child)) (hk : T.kindOf c.op = some k) :
+    (k = .create → child = (gas - ((T.info c.op).minGas + c.extra)) - (gas - ((T.info c.op).minGas + c.extra)) / 64) ∧
+    (k ≠ .create →
+      (T.info c.op).minGas + (if withValue k c then T.params.callValueTransferGas else 0) + c.extra ≤ gas ∧
+      child ≤ (gas - ((T.info c.op).minGas + (if withValue k c then T.params.callValueTransferGas else 0) + c.extra))
+            - (gas - ((T.info c.op).minGas + (if withValue k c then T.params.callValueTransferGas else 0) + c.extra)) / 64
+            + (if withValue k c then T.params.callStipend else 0)) := by
+  unfold pre at h
+  simp only [] at h
+  split at h; · cases h
+  split at h; · cases h
+  split at h; · cases h
+  split at h; · cases h
+  split at h; · cases h
+  split at h; · cases h
+  rw [hk] at h
+  cases k with
+  | create =>
+    simp only [] at h
+    split at h; · cases h
+    simp only [Except.ok.injEq, Prod.mk.injEq] at h
+    exact ⟨fun _ => h.2.symm, fun hne => absurd rfl hne⟩
+  | call | callCode | delegateCall | staticCall =>
+    simp only [] at h
+    obtain ⟨temp, h1, h2, h3, h4⟩ := preCall_ok _ _ _ _ _ _ _ _ h
+    refine ⟨fun hc => (by cases hc), fun _ => ⟨by omega, ?_⟩⟩
+    have := callGas_le T.params hcs gas _ c.reqGas temp (by omega) hgas h1
+    omega
+
+/-! ### depth -/
+
+/-- **depth_bounded (invariant)**: `evm.depth ≤ CallCreateDepth + 1` is preserved by every step
+    (the interpreter runs at depths 1 … 1025; a call is refused when made from depth > 1024) -/
+theorem depth_inv_step (T : Table) (hT : T.WF) (m : Machine) (c : Choice)
+    (h : m.frames.length ≤ T.params.callCreateDepth + 1) :
+    (step T m c).frames.length ≤ T.params.callCreateDepth + 1 := by
+  cases hm : m.frames with
+  | nil => unfold step; rw [hm]; simp only []; rw [hm]; simp
+  | cons f rest =>
+    rw [hm] at h
+    cases step_shape T hT m c f rest hm with
+    | pop g res hg hf hr => rw [hf, length_addGas]; simp at h; omega
+    | cont g hg hf hr => rw [hf]; simpa using h
+    | push g cf hg hs hd hf hr => rw [hf]; simp; omega
+
+/-- **depth_bounded (call check)**: a step pushes a new frame only if it was made from depth
+    `≤ CallCreateDepth` (= 1024) -/
+theorem call_depth_checked (T : Table) (hT : T.WF) (m : Machine) (c : Choice)
+    (h : (step T m c).frames.length = m.frames.length + 1) :
+    m.frames.length ≤ T.params.callCreateDepth := by
+  cases hm : m.frames with
+  | nil => unfold step at h; rw [hm] at h; simp only [] at h; rw [hm] at h; simp at h
+  | cons f rest =>
+    rw [hm] at h
+    cases step_shape T hT m c f rest hm with
+    | pop g res hg hf hr => rw [hf, length_addGas] at h; simp at h; omega
+    | cont g hg hf hr => rw [hf] at h; simp at h
+    | push g cf hg hs hd hf hr => simp; omega
+
+theorem begin_depth (T : Table) (k : Kind) (gas : Nat) (value canT : Bool) (callee : Callee) :
+    (begin T k gas value canT callee).frames.length ≤ 1 := by
+  unfold begin
+  rcases enter_shape T.params Machine.init k gas value canT callee with ⟨x, res, hx, hf, hr⟩ | ⟨cf, hg, hs, _, hf, hr⟩
+  · rw [hf]; simp [Machine.init, addGas]
+  · rw [hf]; simp [Machine.init]
+
+/-- **depth_bounded**: at every point of every execution started from outside, the call depth is
+    at most `CallCreateDepth + 1`; `n` is the number of steps executed so far -/
+theorem depth_bounded (T : Table) (hT : T.WF) (o : Nat → Choice) (k : Kind) (gas : Nat) (value canT : Bool)
+    (callee : Callee) (n : Nat) :
+    (iter T o n 0 (begin T k gas value canT callee)).frames.length ≤ T.params.callCreateDepth + 1 := by
+  have key : ∀ n i m, m.frames.length ≤ T.params.callCreateDepth + 1 →
+      (iter T o n i m).frames.length ≤ T.params.callCreateDepth + 1 := by
+    intro n
+    induction n with
+    | zero => intro i m h; exact h
+    | succ n ih =>
+      intro i m h
+      unfold iter
+      split
+      · exact h
+      · exact ih _ _ (depth_inv_step T hT m (o i) h)
+  exact key n 0 _ (by have := begin_depth T k gas value canT callee; omega)
+
+/-! ### all-or-nothing -/
+
+/-- the snapshot chain holds at every point of every execution started from outside -/
+theorem chain_reachable (T : Table) (o : Nat → Choice) (k : Kind) (gas : Nat) (value canT : Bool)
+    (callee : Callee) (n : Nat) :
+    Chain (iter T o n 0 (begin T k gas value canT callee)).journal (iter T o n 0 (begin T k gas value canT callee)).frames := by
+  have key : ∀ n i m, Chain m.journal m.frames → Chain (iter T o n i m).journal (iter T o n i m).frames := by
+    intro n
+    induction n with
+    | zero => intro i m h; exact h
+    | succ n ih =>
+      intro i m h
+      unfold iter
+      split
+      · exact h
+      · exact ih _ _ (step_chain T m (o i) h)
+  exact key n 0 _ (begin_chain T k gas value canT callee)
+
+/-- **failed_call_reverts**: when a frame ends with an error or a REVERT, the journal afterwards is
+    exactly the journal at the frame's `Snapshot()` (`f.entry`, ghost) plus the platform's failure
+    event (Call and Create only); REVERT hands the remaining gas back, every other error hands
+    back nothing. Holds for every frame at every nesting depth (`Chain` is an invariant:
+    `chain_reachable`). -/
+theorem failed_call_reverts (P : Params) (m : Machine) (f : Frame) (rest : List Frame) (res : Res) (g r : Nat)
+    (hc : Chain m.journal (f :: rest)) (hres : res ≠ .ok) :
+    (finishFrame P m f rest res g r).journal = f.entry ++ failEvents f.kind res ∧
+    (finishFrame P m f rest res g r).frames = addGas rest (if res = .failed then 0 else g) := by
+  obtain ⟨h1, h2, _⟩ := hc
+  exact ⟨by rw [finishFrame_journal_notok P m f rest res g r hres, take_snap h1 h2],
+         finishFrame_frames_notok P m f rest res g r hres⟩
+
+/-- every check of `Interpreter.Run` that fails (invalid opcode, stack, write protection, gas
+    overflow, out of gas) ends the frame with "revert to snapshot, consume all gas" -/
+theorem error_step_reverts (T : Table) (m : Machine) (c : Choice) (f : Frame) (rest : List Frame) (e : Verdict)
+    (hm : m.frames = f :: rest) (hc : Chain m.journal m.frames) (hp : pre T m.readOnly f.gas c = .error e) :
+    (step T m c).journal = f.entry ++ failEvents f.kind .failed ∧ (step T m c).frames = addGas rest 0 := by
+  rw [hm] at hc
+  have := failed_call_reverts T.params m f rest .failed 0 0 hc (by decide)
+  unfold step
+  rw [hm]
+  simp only [hp]
+  exact this
+
+/-- an error inside `execute` (bad jump destination, return data out of bounds, …) does the same -/
+theorem exec_error_step_reverts (T : Table) (m : Machine) (c : Choice) (f : Frame) (rest : List Frame) (r : Nat × Nat)
+    (hm : m.frames = f :: rest) (hc : Chain m.journal m.frames) (hp : pre T m.readOnly f.gas c = .ok r)
+    (hk : T.kindOf c.op = none) (hx : c.execErr = true) :
+    (step T m c).journal = f.entry ++ failEvents f.kind .failed ∧ (step T m c).frames = addGas rest 0 := by
+  rw [hm] at hc
+  have := failed_call_reverts T.params m f rest .failed 0 0 hc (by decide)
+  unfold step
+  rw [hm]
+  simp only [hp, hk, hx, if_true]
+  exact this
+
+/-- REVERT: state back to the snapshot, remaining gas `g` returned to the caller -/
+theorem revert_step_keeps_gas (T : Table) (m : Machine) (c : Choice) (f : Frame) (rest : List Frame) (g child : Nat)
+    (hm : m.frames = f :: rest) (hc : Chain m.journal m.frames) (hp : pre T m.readOnly f.gas c = .ok (g, child))
+    (hk : T.kindOf c.op = none) (hx : c.execErr = false) (hr : (T.info c.op).reverts = true) :
+    (step T m c).journal = f.entry ++ failEvents f.kind .reverted ∧ (step T m c).frames = addGas rest g := by
+  rw [hm] at hc
+  have hc1 : Chain (if (T.info c.op).writes then m.journal ++ List.replicate c.writes Entry.write else m.journal) (f :: rest) := by
+    split
+    · exact chain_mono (List.prefix_append _ _) hc
+    · exact hc
+  have := failed_call_reverts T.params
+    { m with journal := if (T.info c.op).writes then m.journal ++ List.replicate c.writes Entry.write else m.journal }
+    f rest .reverted g 0 hc1 (by decide)
+  unfold step
+  rw [hm]
+  simp only [hp, hk, hx, hr, if_true, Bool.false_eq_true, if_false]
+  exact this
+
+/-! ### read-only calls -/
+
+/-- **static_no_write (instruction level)**: under readOnly the interpreter lets no state-writing
+    instruction (SSTORE, LOG*, CREATE, SELFDESTRUCT) and no CALL with value reach its gas stage, let
+    alone `execute` -/
+theorem static_no_write_partial (T : Table) (gas : Nat) (c : Choice) (r : Nat × Nat)
+    (h : pre T true gas c = .ok r) :
+    (T.info c.op).writes = false ∧ ¬ (c.op = T.params.opCall ∧ c.value = true) :=
+  (pre_ok_valid T true gas c r h).2.2.2 rfl
+
+/-- …and a plain instruction executed under readOnly leaves the journal untouched unless it ends the frame -/
+theorem static_plain_step_journal (T : Table) (m : Machine) (c : Choice) (f : Frame) (rest : List Frame) (g child : Nat)
+    (hm : m.frames = f :: rest) (hro : m.readOnly = true) (hp : pre T m.readOnly f.gas c = .ok (g, child))
+    (hk : T.kindOf c.op = none) (hx : c.execErr = false)
+    (hr : (T.info c.op).reverts = false) (hh : (T.info c.op).halts = false) :
+    (step T m c).journal = m.journal := by
+  have hw : (T.info c.op).writes = false := by
+    rw [hro] at hp
+    exact (static_no_write_partial T f.gas c _ hp).1
+  unfold step
+  rw [hm]
+  simp only [hp, hk, hx, hr, hh, hw, Bool.false_eq_true, if_false]
+
+/-- readOnly is switched on by a StaticCall frame and stays on while that frame is live: entering
+    any callee never clears it -/
+theorem enter_keeps_readOnly (P : Params) (m : Machine) (k : Kind) (gas : Nat) (value canT : Bool)
+    (hro : m.readOnly = true) :
+    (enter P m k gas value canT .code).readOnly = true := by
+  unfold enter giveBack enterCreate enterCall runCallee giveBack
+  simp only [hro]
+  repeat (first | split | rfl | simp)
+
+set_option maxRecDepth 100000 in
+/-- **refutation of the full `static_no_write`** ("a read-only call changes nothing"): the
+    interpreter's readOnly flag does not protect against the state-writing reward precompile
+    (address 0x09, `setRewardValue.Run` calls `SetStorageState`): a STATICCALL to it, made inside
+    a static context, appends a write to the journal. -/
+theorem static_write_refuted :
+    ∃ (m : Machine) (c : Choice), m.readOnly = true ∧ Entry.write ∉ m.journal ∧
+      Entry.write ∈ (step EvmTable.table m c).journal :=
+  ⟨begin EvmTable.table .staticCall 100000 false true .code,
+   { op := 250, stackLen := 6, reqGas := 50000, callee := .pre 0 true 1 }, by decide, by decide, by decide⟩
+
+set_option maxRecDepth 100000 in
+/-- second deviation: a CALL with **zero** value made inside a static context still executes
+    `evm.Transfer`, which pushes two (no-op) balance change logs -/
+theorem static_zero_transfer_journaled :
+    ∃ (m : Machine) (c : Choice), m.readOnly = true ∧ m.journal = [] ∧
+      (step EvmTable.table m c).journal = [.transfer false, .transfer false] :=
+  ⟨begin EvmTable.table .staticCall 100000 false true .code,
+   { op := 241, stackLen := 7, reqGas := 50000, callee := .code }, by decide, by decide, by decide⟩
+
+/-! ### non-vacuity -/
+
+set_option maxRecDepth 100000 in
+/-- a run with a nested failing CALL: outer frame keeps its write, the inner frame's write is gone,
+    the platform's failure event stays, the inner gas is consumed -/
+example :
+    let T := EvmTable.table
+    let m0 := begin T .call 100000 false true .code                       -- journal: 2 transfer logs
+    let m1 := step T m0 { op := 85, stackLen := 2, writes := 1 }          -- SSTORE (5000 gas)
+    let m2 := step T m1 { op := 241, stackLen := 7, reqGas := 30000, callee := .code }  -- CALL, 30000 gas
+    let m3 := step T m2 { op := 85, stackLen := 2, writes := 1 }          -- inner SSTORE
+    let m4 := step T m3 { op := 254, stackLen := 0 }                      -- INVALID
+    let m5 := step T m4 { op := 0, stackLen := 1 }                        -- outer STOP
+    m2.frames.length = 2 ∧ (m2.frames.map (·.gas)) = [30000, 64300] ∧
+    m4.journal = [.transfer false, .transfer false, .write, .event true] ∧
+    m5.result = some (.ok, 64300) ∧ m5.frames = [] := by
+  decide
+
+set_option maxRecDepth 100000 in
+/-- the hypotheses of `child_gas_63_64` / `run_terminates` are satisfiable on the real table, and
+    REVERT keeps the gas -/
+example :
+    let T := EvmTable.table
+    (pre T false 100000 { op := 241, stackLen := 7, reqGas := 1000000, value := true }).toOption = some (1410, 91190) ∧
+    (step T (begin T .call 1000 false true .code) { op := 253, stackLen := 2 }).result = some (.reverted, 1000) := by
+  decide
 
 end LemoProofs.C16
